@@ -1270,7 +1270,7 @@ impl<D: TextDecorator> SubRenderer<D> {
     }
 
     /// Wrap links to width
-    pub fn fmt_links(&mut self, mut links: Vec<TaggedLine<D::Annotation>>) {
+    pub fn fmt_links(&mut self, mut links: Vec<TaggedLine<D::Annotation>>) -> Result<()> {
         for line in links.drain(..) {
             /* Hard wrap */
             let mut pos = 0;
@@ -1299,6 +1299,10 @@ impl<D: TextDecorator> SubRenderer<D> {
                             self.add_line(RenderLine::Text(wrapped_line));
                             wrapped_line = TaggedLine::new();
                             pos = 0;
+                            if c_width > self.width && !self.options.allow_width_overflow {
+                                // This character doesn't fit on a line by itself.
+                                return Err(TooNarrow);
+                            }
                         }
                         pos += c_width;
                         buf.push(c);
@@ -1314,6 +1318,7 @@ impl<D: TextDecorator> SubRenderer<D> {
             }
             self.add_line(RenderLine::Text(wrapped_line));
         }
+        Ok(())
     }
 
     /// Returns a `Vec` of `TaggedLine`s with the rendered text.
